@@ -274,10 +274,33 @@ func vBuildSmallTrees() (int, []string) {
 			}
 		}
 	}
+	// table grids: three rows of one or two cells, the first cell of each row with every rowspan in 0, 1, 2, 3, 5
+	// and colspan in 1, 2 (rowspans that run past the rows left in the group, past the whole group, or to its end)
+	var spans []string
+	for _, rs := range []int{0, 1, 2, 3, 5} {
+		for _, cs := range []int{1, 2} {
+			spans = append(spans, fmt.Sprintf(` rowspan="%d" colspan="%d"`, rs, cs))
+		}
+	}
+	for _, s1 := range spans {
+		for _, s2 := range spans {
+			for _, s3 := range spans {
+				for two := 0; two < 8; two++ {
+					row := func(span string, second bool) string {
+						if second {
+							return "<tr><td" + span + ">a</td><td>b</td></tr>"
+						}
+						return "<tr><td" + span + ">a</td></tr>"
+					}
+					build("table "+s1+s2+s3+fmt.Sprint(two), "<table>"+row(s1, two&1 != 0)+row(s2, two&2 != 0)+row(s3, two&4 != 0)+"</table>")
+				}
+			}
+		}
+	}
 	return n, fails
 }
 
-//@ bounded vBuildSmallTrees BuildFormattingStructure on every document of three elements (chain and fork) over 15 display values, with separated and collapsed borders (13 500 documents), 64 counter-property combinations, and 20808 generated-content documents (::before of one or two items and ::after of one item over 17 kinds: the four quote keywords, strings, counters, attr() with string and url types, present and missing, content() of four kinds; under four values of quotes), 88 list-marker documents (11 list-style-type values incl. empty strings and counter styles with empty symbols x position x 4 list-item counter settings): no panic, the root is a block
+//@ bounded vBuildSmallTrees BuildFormattingStructure on every document of three elements (chain and fork) over 15 display values, with separated and collapsed borders (13 500 documents), 64 counter-property combinations, and 20808 generated-content documents (::before of one or two items and ::after of one item over 17 kinds: the four quote keywords, strings, counters, attr() with string and url types, present and missing, content() of four kinds; under four values of quotes), 88 list-marker documents (11 list-style-type values incl. empty strings and counter styles with empty symbols x position x 4 list-item counter settings), 8 000 three-row tables (first cell of each row with rowspan in 0, 1, 2, 3, 5 and colspan in 1, 2; one or two cells per row): no panic, the root is a block
 //@   props C01
 
 // css-page-3 §5.3: a box starts on the page its FIRST in-flow child starts on and ends on the page its LAST
